@@ -9,10 +9,39 @@ _SPECIAL = [0x00, 0xFF, 0x22, 0x27, 0x5C, 0x0A, 0x0D, 0x3B, 0x7B, 0x7D, 0x23, 0x
 byte_val = st.one_of(st.sampled_from(_SPECIAL), st.integers(0, 255))
 
 
+# byte sequences that text-oriented code (strip / split / decode / printf-style formatting) treats specially; binary
+# values may start or end with any of them
+EDGES = [b"\r\n", b"\n", b"\r", b" ", b"\t", b"\x00", b"\x00\x00", b"\n\n", b"\r\n\r\n", b"==", b"=", b"\xff\xff\xff", b"%", b"%41", b"+", b"\x85", b"\xa0", b"\x1f", b"\x0b", b"\x0c", b"\\", b'"', b"'"]
+
+
+def _with_edges(t):
+    blob, pre, suf, min_size, max_size = t
+    if pre is not None:
+        blob = pre + blob[len(pre) :]
+    if suf is not None:
+        blob = blob[: max(0, len(blob) - len(suf))] + suf
+    blob = blob[:max_size]
+    return blob if len(blob) >= min_size else blob + b"\n" * (min_size - len(blob))
+
+
+# fragments that look like escapes / quoting to code that renders bytes as text and back (repr(), literal escapes,
+# percent-encoding): they only matter as adjacent pairs, which independent random bytes almost never form
+FRAGMENTS = [b"\\'", b'\\"', b"\\\\", b"\\\\'", b"'\"", b"\"'", b"\\x41", b"\\u0041", b"\\n", b"\\", b"'", b'"', b"%41", b"%%", b"\r\n", b"\x00", b"\xff", b"\x80", b"A", b"z", b" ", b"{", b"}", b";", b"#", b"$", b"\\x", b"\\u00"]
+
+
+def _join_fragments(t):
+    parts, min_size, max_size = t
+    blob = b"".join(parts)[:max_size]
+    return blob if len(blob) >= min_size else blob + b"'" * (min_size - len(blob))
+
+
 def binary(min_size=0, max_size=24):
+    _edge = st.one_of(st.none(), st.sampled_from(EDGES))
     return st.one_of(
         st.binary(min_size=min_size, max_size=max_size),
         st.lists(byte_val, min_size=min_size, max_size=max_size).map(bytes),
+        st.tuples(st.binary(min_size=min_size, max_size=max_size), _edge, _edge, st.just(min_size), st.just(max_size)).map(_with_edges),
+        st.tuples(st.lists(st.sampled_from(FRAGMENTS), max_size=6), st.just(min_size), st.just(max_size)).map(_join_fragments),
     )
 
 
